@@ -116,6 +116,10 @@ pub fn enumerate(cfg: &AttackCfg, r: &RefRun, seed: u64) -> Vec<C03Sub> {
                         out.push(sub(cfg, r, &s, MutSpec::At { path: vec![*w], op: LeafOp::SetNone }, "wire-shares:absent", vec![s.to]));
                     }
                 }
+                let mine: Vec<usize> = input_owner.iter().filter(|(_, owner)| *owner == s.to).map(|(w, _)| *w).collect();
+                if mine.len() >= 2 {
+                    out.push(sub(cfg, r, &s, MutSpec::Multi(mine.iter().take(2).map(|w| (vec![*w, 0, 0], LeafOp::FlipBool)).collect()), "wire-shares:bits-of-two-wires", vec![s.to]));
+                }
             }
             "output wire shares" => {
                 for o in &uniq_outs {
@@ -123,6 +127,15 @@ pub fn enumerate(cfg: &AttackCfg, r: &RefRun, seed: u64) -> Vec<C03Sub> {
                     out.push(sub(cfg, r, &s, MutSpec::At { path: vec![w, 0, 0], op: LeafOp::FlipBool }, "output-wire-shares:bit", vec![s.to]));
                     out.push(sub(cfg, r, &s, MutSpec::At { path: vec![w, 0, 1], op: LeafOp::XorU128(rand_mask(&mut rng)) }, "output-wire-shares:mac", vec![s.to]));
                     out.push(sub(cfg, r, &s, MutSpec::At { path: vec![w], op: LeafOp::SetNone }, "output-wire-shares:absent", vec![s.to]));
+                }
+                // checks that aggregate over the registers must not let an even number of altered
+                // shares cancel: the bits of two (and of all) output registers flipped, MACs untouched
+                let ws: Vec<usize> = uniq_outs.iter().map(|o| *o as usize).collect();
+                if ws.len() >= 2 {
+                    out.push(sub(cfg, r, &s, MutSpec::Multi(ws.iter().take(2).map(|w| (vec![*w, 0, 0], LeafOp::FlipBool)).collect()), "output-wire-shares:bits-of-two-registers", vec![s.to]));
+                    if ws.len() >= 4 {
+                        out.push(sub(cfg, r, &s, MutSpec::Multi(ws.iter().take(ws.len() / 2 * 2).map(|w| (vec![*w, 0, 0], LeafOp::FlipBool)).collect()), "output-wire-shares:bits-of-an-even-number-of-registers", vec![s.to]));
+                    }
                 }
             }
             "labels" if c != e => {
